@@ -64,11 +64,18 @@ def run(ctx):
     # --- constructs
     found = {v: set() for v in variants}
     catches = {}
+    from ..owners import for_crate
+    own = for_crate(lib)
+
+    def owned_by(bid, allowed):
+        """every reviewed function this body is attributed to is in `allowed` (helpers extracted from them count)"""
+        os_ = own.of(bid)
+        return bool(os_) and all(o in allowed for o in os_)
     for b in lib.bodies.values():
         for _, s in aggregates(b, STOP):
-            found[s["rv"]["variant"]].add(b.id)
+            found[s["rv"]["variant"]].update(own.of(b.id))
             key = "construct:%s:%s" % (s["rv"]["variant"], b.id)
-            if b.id in CONSTRUCT.get(s["rv"]["variant"], {}):
+            if owned_by(b.id, CONSTRUCT.get(s["rv"]["variant"], {})):
                 res.ok(key, b.where(s.get("line")))
             elif b.impl_trait == "std::clone::Clone" or b.impl_trait == "std::fmt::Debug":
                 res.ok(key, b.where(s.get("line")), "derive")
@@ -85,20 +92,30 @@ def run(ctx):
     for bid, sws in catches.items():
         b = lib.bodies[bid]
         key = "catch:" + bid
-        if bid in CATCH:
-            res.ok(key, b.where(), CATCH[bid])
+        if owned_by(bid, CATCH):
+            res.ok(key, b.where(), "; ".join(CATCH[o] for o in own.of(bid)))
         elif b.impl_trait in ("std::fmt::Debug", "std::clone::Clone"):
             res.ok(key, b.where(), "derive")
         else:
             res.bad(key, "%s inspects an ExecStop value: a control signal can be intercepted before it reaches its innermost "
                          "loop / function (catch sites are %s)" % (bid, ", ".join(sorted(CATCH))), b.where(sws[0].get("line")))
+    caught_owners = set()
+    for bid in catches:
+        caught_owners |= set(own.of(bid))
     for bid in CATCH:
-        res.anchor(bid in catches, "catch site %s no longer matches on ExecStop" % bid)
+        res.anchor(bid in caught_owners, "catch site %s no longer matches on ExecStop" % bid)
+
+    def catch_body(anchor):
+        """the body (the anchor itself or a helper extracted from it) that holds the match on ExecStop"""
+        for bid2 in catches:
+            if own.of(bid2) == frozenset({anchor}):
+                return lib.bodies[bid2], catches[bid2]
+        return None, None
 
     # --- routing in Loop::exec
-    b = lib.body(LOOP_EXEC)
-    if b is not None and LOOP_EXEC in catches:
-        sw = catches[LOOP_EXEC][0]
+    b, sws_ = catch_body(LOOP_EXEC)
+    if b is not None and b.id == LOOP_EXEC:
+        sw = sws_[0]
         body_calls = [c for c in b.calls if c.path == "instruction::Exec::exec"]
         if res.anchor(len(body_calls) == 1, "Loop::exec calls the body's exec exactly once per iteration"):
             hdr = body_calls[0].bb
@@ -136,9 +153,9 @@ def run(ctx):
                 res.ok("route:Loop:pass", b.where(), "Return/Error leave the loop unchanged")
             # Ok(_) continues
     # --- routing in Function::exec
-    b = lib.body(FN_EXEC)
-    if b is not None and FN_EXEC in catches:
-        sw = catches[FN_EXEC][0]
+    b, sws_ = catch_body(FN_EXEC)
+    if b is not None:
+        sw = sws_[0]
         for var, want in (("Return", "Ok"), ("Error", "Err")):
             t = sw["arms"].get(var)
             key = "route:Function:%s" % var
@@ -154,9 +171,9 @@ def run(ctx):
             else:
                 res.ok(key, b.where(), "%s -> %s" % (var, want))
         # the interpreter.exec call whose result is matched: the only Exec entry
-    b = lib.body(TOP_EXEC)
-    if b is not None and TOP_EXEC in catches:
-        ok = all("Error" in sw["arms"] for sw in catches[TOP_EXEC])
+    b, sws_ = catch_body(TOP_EXEC)
+    if b is not None:
+        ok = all("Error" in sw["arms"] for sw in sws_)
         if ok:
             res.ok("route:Code:Error", b.where())
         else:
@@ -170,7 +187,7 @@ def run(ctx):
                 continue
             allowed = INS_BREAK if v == "Break" else INS_CONTINUE
             key = "ins:%s:%s" % (v, b.id)
-            if b.id in allowed:
+            if owned_by(b.id, allowed):
                 res.ok(key, b.where(s.get("line")))
             else:
                 res.bad(key, "Instruction::%s is built in %s, outside the guarded constructor and the loop desugarings" % (v, b.id),
